@@ -563,6 +563,18 @@ class World:
             return (a is ABSENT and b is ABSENT) or (a is not ABSENT and b is not ABSENT and same(a, b))
         is_old = eq(obs, exp_old) or (obs is not ABSENT and exp_old is ABSENT and same(obs, r.model))
         is_new = new_ok and obs is not ABSENT and same(obs, trial)
+        if name == "popitem" and h.kind == "dict" and new_ok and obs is not ABSENT and has_path(obs, h.path):
+            # popitem removes ANY one item: the new content is the old one minus exactly one key at the handle's path
+            tgt_old, tgt_obs = get_path(trial, h.path), get_path(obs, h.path)
+            if isinstance(tgt_obs, dict) and len(tgt_obs) == len(tgt_old) - 1 and all(k in tgt_old and same(v, tgt_old[k]) for k, v in tgt_obs.items()):
+                probe_new = deep(trial)
+                for k in list(get_path(probe_new, h.path)):
+                    if k not in tgt_obs:
+                        del get_path(probe_new, h.path)[k]
+                if same(probe_new, obs):
+                    trial, is_new = probe_new, True
+            else:
+                is_new = False
         if is_new:
             r.model, r.disk, r.exists = trial, deep(trial), True
         elif is_old:
